@@ -33,6 +33,7 @@ type Collector struct {
 	Rule         string            `json:"rule"`
 	cur          string
 	curNT        bool
+	known        map[string]bool
 }
 
 func newCollector(id string) *Collector {
@@ -148,6 +149,7 @@ func runProp[C any](t *testing.T, id, rule string, gen func(*rapid.T) C, check f
 	col.Rule = rule
 	defer col.flush()
 	known := knownSigs()
+	col.known = known
 
 	handle := func(c C, fatal func(string, ...any)) {
 		caseJSON, _ := json.Marshal(c)
@@ -305,6 +307,20 @@ func runOps(s *sim.Sim, ops []sim.Op) outcome {
 		}
 	}
 	return outcome{}
+}
+
+// runOpsKnown is runOps with the recorded findings made known to the simulator, so that the search
+// continues behind them; what was seen is merged into the collector.
+func runOpsKnown(s *sim.Sim, ops []sim.Op, col *Collector) outcome {
+	s.Known = col.known
+	out := runOps(s, ops)
+	for k, v := range s.KnownSeen {
+		col.Known[k] += v
+		if _, ok := col.KnownExample[k]; !ok {
+			col.KnownExample[k] = s.KnownExample[k]
+		}
+	}
+	return out
 }
 
 func tail(tr []string, n int) []string {
